@@ -20,7 +20,8 @@ def have_boost_deque():
 def fc_monitor(lines, unique_args=True):
     """First violation of: lock/unlock alternate; exec and free only by the lock holder; per requester
     inv -> exec -> ret with the response read equal to the response written; (counting container with
-    unique request ids) every request executed once and the counter returned is 1.  None if the log is fine."""
+    unique request ids) every request executed once and the counter returned is 1.
+    Returns None if the log is fine, else (kind of violation, detail)."""
     holder = None
     st = {}
     nexec = {}
@@ -31,37 +32,37 @@ def fc_monitor(lines, unique_args=True):
         tid = int(t[0]); name = t[2]; a = t[3:]
         if name == "lock":
             if holder is not None:
-                return "line %d: thread %d acquires the combiner lock while thread %d holds it" % (k, tid, holder)
+                return ("a thread acquires the combiner lock while another thread holds it", "log line %d: thread %d, holder %d" % (k, tid, holder))
             holder = tid
         elif name == "unlock":
             if holder != tid:
-                return "line %d: thread %d releases the combiner lock it does not hold" % (k, tid)
+                return ("a thread releases the combiner lock it does not hold", "log line %d: thread %d" % (k, tid))
             holder = None
         elif name == "inv":
             if st.get(tid) is not None:
-                return "line %d: thread %d invokes while a request is outstanding" % (k, tid)
+                return ("a thread invokes while its previous request is outstanding", "log line %d: thread %d" % (k, tid))
             st[tid] = ("pending", a[0], a[1])
         elif name == "exec":
             if holder != tid:
-                return "line %d: request executed by thread %d which is not the combiner (holder %s)" % (k, tid, holder)
+                return ("a request is executed by a thread that does not hold the combiner lock", "log line %d: thread %d, holder %s" % (k, tid, holder))
             o = int(a[0])
             s = st.get(o)
             if s is None or s[0] != "pending" or s[1] != a[1] or s[2] != a[2]:
-                return "line %d: request (%s) of thread %d executed but it is not pending (state %s): executed twice, or not published" % (k, " ".join(a[1:3]), o, s)
+                return ("a request is executed while it is not pending (executed twice, after its response was stored, or never published)", "log line %d: request (%s) of thread %d, requester state %s" % (k, " ".join(a[1:3]), o, s))
             st[o] = ("done", a[3:])
             nexec[a[2]] = nexec.get(a[2], 0) + 1
             if unique_args and (nexec[a[2]] != 1 or a[3:] != ["1"]):
-                return "line %d: request id %s executed %d times (counter %s)" % (k, a[2], nexec[a[2]], a[3:])
+                return ("a request is executed more than once", "log line %d: request id %s executed %d times (counter %s)" % (k, a[2], nexec[a[2]], a[3:]))
         elif name == "ret":
             s = st.get(tid)
             if s is None or s[0] != "done":
-                return "line %d: thread %d returns although its request was not executed (state %s)" % (k, tid, s)
+                return ("a requester returns although its request was not executed", "log line %d: thread %d, state %s" % (k, tid, s))
             if s[1] != a:
-                return "line %d: thread %d returns %s but the combiner wrote %s" % (k, tid, a, s[1])
+                return ("a requester returns a response different from the one the combiner wrote", "log line %d: thread %d returns %s, combiner wrote %s" % (k, tid, a, s[1]))
             st[tid] = None
         elif name == "free":
             if holder != tid:
-                return "line %d: record freed by thread %d which is not the combiner" % (k, tid)
+                return ("a publication record is freed by a thread that does not hold the combiner lock", "log line %d: thread %d" % (k, tid))
     return None
 
 
@@ -117,6 +118,40 @@ def run_impl(ctx, exe, cases, tag, timeout=900, env=None):
     conc_check.write_cases(cf, cases)
     rc, out = vcheck.sh([exe, cf], timeout=timeout, env=env)
     return rc, conc_check.parse_logs(out), out
+
+
+def run_par(exe_args, cases, workdir, tag, nproc=8, timeout=1200, env=None, stdin_mode=False):
+    """Run `exe_args + [casefile]` (or with the case file on stdin) on chunks of the cases in parallel processes;
+    returns the concatenated output (chunk order)."""
+    import subprocess
+    nproc = max(1, min(nproc, vcheck.NCPU, (len(cases) + 19) // 20))
+    chunks = [cases[k::nproc] for k in range(nproc)]
+    procs = []
+    e = dict(os.environ)
+    if env:
+        e.update(env)
+    for k, ch in enumerate(chunks):
+        cf = os.path.join(workdir, "%s.%d.txt" % (tag, k))
+        conc_check.write_cases(cf, ch)
+        if stdin_mode:
+            procs.append(subprocess.Popen(exe_args, stdin=open(cf), stdout=subprocess.PIPE, stderr=subprocess.STDOUT, text=True, errors="replace", env=e))
+        else:
+            procs.append(subprocess.Popen(exe_args + [cf], stdout=subprocess.PIPE, stderr=subprocess.STDOUT, text=True, errors="replace", env=e))
+    outs = []
+    for p in procs:
+        try:
+            o, _ = p.communicate(timeout=timeout)
+        except subprocess.TimeoutExpired:
+            p.kill(); o, _ = p.communicate(); o += "\n[timeout]"
+        outs.append(o)
+    return "\n".join(outs)
+
+
+def run_both_par(ctx, model_exe, impl_exe, cases, tag="cases", timeout=1200, fuel=20000, nproc=8):
+    """like conc_check.run_both, the implementation runs in parallel processes"""
+    o1 = run_par([model_exe, str(fuel)], cases, ctx.work, tag + "_m", nproc=nproc, timeout=timeout, stdin_mode=True)
+    o2 = run_par([impl_exe], cases, ctx.work, tag + "_i", nproc=nproc, timeout=timeout)
+    return 0, conc_check.parse_logs(o1), 0, conc_check.parse_logs(o2), o2
 
 
 def split_model_uaf(mlog):
